@@ -304,6 +304,42 @@ def trinv2(T):
     Ti[2,2] = 1
     return Ti
 
+def trnorm2(T):
+    r"""
+    Normalize an SO(2) or SE(2) matrix
+
+    :param T: SO(2) or SE(2) matrix
+    :type T: ndarray(3,3) or ndarray(2,2)
+    :return: normalized SO(2) or SE(2) matrix
+    :rtype: ndarray(3,3) or ndarray(2,2)
+    :raises ValueError: bad arguments
+
+    - ``trnorm2(R)`` is guaranteed to be a proper orthogonal matrix rotation
+      matrix (2,2) which is *close* to the input matrix R (2,2).
+    - ``trnorm2(T)`` as above but the rotational submatrix of the homogeneous
+      transformation T (3,3) is normalised while the translational part is
+      unchanged.
+
+    The direction of the second column (the y-axis) is unchanged, the first
+    column is made perpendicular to it, as :func:`~spatialmath.base.transforms3d.trnorm`
+    does for the third column in 3D.
+
+    :seealso: :func:`~spatialmath.base.transforms3d.trnorm`
+    """
+
+    if not ishom2(T) and not isrot2(T):
+        raise ValueError("expecting SO(2) or SE(2)")
+
+    y = base.unitvec(T[:2, 1])
+    x = np.r_[y[1], -y[0]]       # y rotated by -90 degrees
+    R = np.stack((x, y), axis=1)
+
+    if ishom2(T):
+        return base.rt2tr(R, T[:2, 2])
+    else:
+        return R
+
+
 def trlog2(T, check=True, twist=False):
     """
     Logarithm of SO(2) or SE(2) matrix
